@@ -492,19 +492,44 @@ func runCompileShape(c *Ctx, r *Result, rule string) {
 			}
 			if isPanic {
 				nPanics++
-				panicOK = errv != nil && domGuard(b, func(cond ssa.Value) (int, bool) {
-					bo, ok := cond.(*ssa.BinOp)
-					if !ok || bo.X != errv {
-						return 0, false
+				// the panic must sit on the err != nil edge itself, with no further test in between
+				panicOK = false
+				if errv != nil {
+					for _, hb := range must.Blocks {
+						if len(hb.Instrs) == 0 {
+							continue
+						}
+						iff, ok := hb.Instrs[len(hb.Instrs)-1].(*ssa.If)
+						if !ok {
+							continue
+						}
+						bo, ok := iff.Cond.(*ssa.BinOp)
+						if !ok || bo.X != errv {
+							continue
+						}
+						succ := -1
+						if bo.Op == token.NEQ {
+							succ = 0
+						} else if bo.Op == token.EQL {
+							succ = 1
+						}
+						if succ < 0 {
+							continue
+						}
+						t := hb.Succs[succ]
+						for steps := 0; steps < 5 && t != nil; steps++ {
+							if t == b && len(t.Preds) == 1 {
+								panicOK = true
+								break
+							}
+							if len(t.Succs) == 1 && len(t.Preds) == 1 {
+								t = t.Succs[0]
+							} else {
+								break
+							}
+						}
 					}
-					if bo.Op == token.NEQ {
-						return 0, true
-					}
-					if bo.Op == token.EQL {
-						return 1, true
-					}
-					return 0, false
-				})
+				}
 			}
 		}
 	}
